@@ -240,13 +240,20 @@ def scrape_driver():
             ok_mark = False
     facts["content_before_open"] = ok_gen and len(arms) == 4
     facts["marking_before_content"] = ok_mark and len(arms) == 4
+    # idlc_codegen_rust/src/generator.rs: a second interface with the same lower-cased file
+    # name is an error (the `insert` result is inspected) rather than a silent replacement
+    rg = re.sub(r"//.*", "", read("idlc_codegen_rust/src/generator.rs"))
+    m = re.search(r"else if interfaces\s*\.insert\((.*?)\)\s*\.is_some\(\)\s*\{\s*idlc_errors::unrecoverable!", rg, re.S)
+    facts["rust_collision_rejected"] = bool(m) and "to_lowercase()" in rg
+    if "interfaces.insert(" not in rg.replace("\n", "").replace(" ", "") and not m:
+        problems.append("rust generator.rs: cannot locate the per-interface insert")
     return facts, problems
 
 
 def render_driver(facts):
     out = ["(* GENERATED by lib/translate.py from idlc/src/main.rs: order of effects of the driver. *)",
            "Require Import Base.", ""]
-    for k in ("writes_after_validation", "open_truncates", "content_before_open", "marking_before_content"):
+    for k in ("writes_after_validation", "open_truncates", "content_before_open", "marking_before_content", "rust_collision_rejected"):
         out.append("Definition %s : bool := %s." % (k, "true" if facts.get(k) else "false"))
     return "\n".join(out) + "\n"
 
